@@ -162,10 +162,10 @@ func (w *world) liveCfgTerm() string {
 
 // ---------- abstract histories (what the generator and the shrinker handle) ----------
 type absCookie struct {
-	Src  string `json:"src"`            // "tracking": cookie set by start step Step; "session": set by deliver step Step; "garbage"; "forged"
-	Step int    `json:"step"`           // step id
-	Name string `json:"name"`           // "own" | "flow:<id>" (the name of another flow's cookie) | "session" | "=<literal>"
-	Mut  string `json:"mut,omitempty"`  // "" | "bitflip" | "truncate" | "resign"
+	Src  string `json:"src"`           // "tracking": cookie set by start step Step; "session": set by deliver step Step; "garbage"; "forged"
+	Step int    `json:"step"`          // step id
+	Name string `json:"name"`          // "own" | "flow:<id>" (the name of another flow's cookie) | "session" | "=<literal>"
+	Mut  string `json:"mut,omitempty"` // "" | "bitflip" | "truncate" | "resign"
 }
 type absStep struct {
 	ID     int         `json:"id"`
@@ -188,10 +188,10 @@ type obsCookie struct {
 	Kind     int    `json:"kind"` // 0 cleared 1 tracking 2 session 3 other
 	A, B, C  string
 	Iat, Exp int64
-	HTTPOnly bool  `json:"httponly"`
-	Secure   bool  `json:"secure"`
+	HTTPOnly bool   `json:"httponly"`
+	Secure   bool   `json:"secure"`
 	Path     string `json:"path"`
-	MaxAge   int64 `json:"max_age"`
+	MaxAge   int64  `json:"max_age"`
 	value    string
 }
 type obsReply struct {
@@ -845,15 +845,15 @@ func runHistory(cfg worldCfg, hist []absStep, seed int64) (res execResult) {
 var pageURLs = []string{"/protected/a?x=1", "/protected/b", "/app/c?q=a%20b&r=2", "/d/e/f", "/", "/protected/a?x=1"}
 
 type histGen struct {
-	c      *Ctx
-	cfg    worldCfg
-	steps  []absStep
-	nextID int
-	starts []int // ids of start/page steps that (probably) started flows
-	answs  []int // ids of answer steps
-	answOf map[int]int
-	delivs []int // ids of deliver steps
-	clock  int64 // ns since t0
+	c          *Ctx
+	cfg        worldCfg
+	steps      []absStep
+	nextID     int
+	starts     []int // ids of start/page steps that (probably) started flows
+	answs      []int // ids of answer steps
+	answOf     map[int]int
+	delivs     []int   // ids of deliver steps
+	clock      int64   // ns since t0
 	startClock []int64 // clock (ns since t0) of each entry of starts
 }
 
@@ -1095,7 +1095,9 @@ func directedHistories(cfg worldCfg) map[string][]absStep {
 	}
 	start := func(u string) absStep { return absStep{Op: "start", URL: u} }
 	answer := func(flow int, user string) absStep { return absStep{Op: "answer", Flow: flow, User: user} }
-	deliver := func(a int, relay string, jar ...absCookie) absStep { return absStep{Op: "deliver", Answer: a, Relay: relay, Jar: jar} }
+	deliver := func(a int, relay string, jar ...absCookie) absStep {
+		return absStep{Op: "deliver", Answer: a, Relay: relay, Jar: jar}
+	}
 	adv := func(dt int64) absStep { return absStep{Op: "advance", DT: dt} }
 
 	h["single-flow-completes"] = mk(start("/protected/a?x=1"), answer(0, "alice"), deliver(1, "faithful", tr(0)),
@@ -1156,13 +1158,14 @@ func directedHistories(cfg worldCfg) map[string][]absStep {
 
 // exhaustiveHistories enumerates every sequence of length <= depth over the alphabet
 // {start A, start B, IdP answers A, IdP answers B, deliver A faithfully with the full jar,
-//  deliver A with only B's cookie, deliver A's answer with B's RelayState, deliver B faithfully,
-//  advance past the tracking lifetime} in which every action is applicable.
+//
+//	deliver A with only B's cookie, deliver A's answer with B's RelayState, deliver B faithfully,
+//	advance past the tracking lifetime} in which every action is applicable.
 func exhaustiveHistories(mid int64, depth int) [][]absStep {
 	type st struct {
-		steps                    []absStep
-		startA, startB           int // step ids, -1 if not yet
-		ansA, ansB               int
+		steps          []absStep
+		startA, startB int // step ids, -1 if not yet
+		ansA, ansB     int
 	}
 	var out [][]absStep
 	var rec func(s st)
